@@ -18,7 +18,7 @@ RULE = (
     "truncated prefixes; (K) keyword/punctuation soups drawn from the dialect's own keyword table; (U) random Unicode incl. the dialect's delimiters; scaled families "
     "(a mutated fragment repeated n, 2n, 4n times; nesting up to depth 40) x drawn dialects x all four error levels. Oracle: tokenize / parse / transpile raise only "
     "SqlglotError subclasses (RecursionError is an environment bound and excluded); a deterministic work counter (Python function calls inside sqlglot, via sys.setprofile) "
-    "stays below A*n^2+B for input length n (A, B = 10x the worst ratio of a calibration campaign) so that a non-terminating or super-quadratic loop is decided without a "
+    "stays below min(A*n^2, L*n)+B for input length n (A, B = 10x the worst ratio of a calibration campaign) so that a non-terminating or super-quadratic loop is decided without a "
     "clock; every tree returned (under IGNORE/WARN too) is generated into the same and another dialect under the same rule; trees are classified complete (no node reports "
     "error_messages()) or incomplete. Strict: V at all levels and generation from complete trees. M/K/U parse leaks and generation from incomplete trees are keyed by call site "
     "(phase, exception type, file, function); a call site not in the catalogue is a violation when >=3 distinct inputs of the run reach it (single hits are listed under "
@@ -33,8 +33,15 @@ PUNCT = ["(", ")", ",", ".", ";", "*", "+", "-", "/", "=", "<", ">", "<>", "::",
 LEVELS = ("IGNORE", "WARN", "RAISE", "IMMEDIATE")
 _KW: dict = {}
 
-# work bound: calls <= A * n^2 + B   (n = len(text)); calibrated, see DESIGN.md §C05
-A, B = 40, 400_000
+# work bound: calls <= min(A * n^2, L * n) + B   (n = len(text)); calibrated, see DESIGN.md §C05. The quadratic term governs short
+# inputs, the linear cap long ones (scaled families of 2000+ characters): the worst ratio ever observed on the unchanged tree is
+# below 100 calls per character, so L = 5000 keeps a 50x margin while a genuine hang on a long input is decided in seconds, not minutes
+A, B, L = 40, 400_000, 5000
+
+
+def bound(n: int) -> int:
+    n = max(n, 1)
+    return min(A * n * n, L * n) + B
 
 
 class WorkExceeded(BaseException):
@@ -138,8 +145,14 @@ def _apply_muts(sql, d, muts):
     from sqlglot.dialects.dialect import Dialect
     from sqlglot.errors import SqlglotError
 
+    # the mutation tokenises with the code under test: same deterministic work bound as everything else
+    counter = _Counter(bound(len(sql)))
     try:
-        toks = Dialect.get_or_raise(d or None).tokenize(sql)
+        sys.setprofile(counter)
+        try:
+            toks = Dialect.get_or_raise(d or None).tokenize(sql)
+        finally:
+            sys.setprofile(None)
     except SqlglotError:
         return sql
     lex = [sql[t.start : t.end + 1] for t in toks if t.end >= t.start]
@@ -204,7 +217,7 @@ def run_one(text, d, other, level, count_work, all_targets=False):
     info = {"raised": False, "incomplete": 0, "complete": 0, "calls": 0, "valid": False}
     dd = d or None
     # an input is VALID in d when a RAISE-level parse accepts it; only then is everything downstream strict
-    pre = _Counter(A * max(len(text), 1) ** 2 + B)
+    pre = _Counter(bound(len(text)))
     try:
         sys.setprofile(pre)
         try:
@@ -217,7 +230,7 @@ def run_one(text, d, other, level, count_work, all_targets=False):
     except BaseException:
         info["valid"] = False
     n = max(len(text), 1)
-    limit = A * n * n + B
+    limit = bound(n)
     counter = _Counter(limit) if count_work else None
     trees = []
     try:
@@ -248,7 +261,7 @@ def run_one(text, d, other, level, count_work, all_targets=False):
         # valid, unmutated statements are generated into EVERY dialect (dialect-specific generator helpers are where a
         # missing None-check hides); everything else into its own and one drawn dialect
         for target in (sqlcore.dialect_names() if all_targets and info["valid"] else dict.fromkeys((d, other))):
-            counter2 = _Counter(A * n * n + B) if count_work else None
+            counter2 = _Counter(bound(n)) if count_work else None
             try:
                 if counter2:
                     sys.setprofile(counter2)
@@ -274,12 +287,29 @@ def run_one(text, d, other, level, count_work, all_targets=False):
     return fails, info
 
 
+_WORK_FAILS = [0]
+WORK_FAIL_STOP = 6
+
+
 def check_case(case, res=None):
     logging.getLogger("sqlglot").setLevel(logging.CRITICAL)
-    text = _text(case)
+    if res is not None and _WORK_FAILS[0] >= WORK_FAIL_STOP:
+        # every work-bound violation costs the whole budget (a hang inside an import is re-entered by every later case):
+        # once a shard has recorded a dozen of them the verdict is settled and the rest of the shard is skipped, counted
+        res.extra["cases_skipped_after_work_bound_violations"] = res.extra.get("cases_skipped_after_work_bound_violations", 0) + 1
+        return []
+    try:
+        text = _text(case)
+    except WorkExceeded:
+        if res is not None:
+            _WORK_FAILS[0] += 1
+            res.case(core.h8([case["sql"], case["dialect"], "tokenize"]), True, [f"class:{case['kind']}"])
+        return [("strict|work-bound-exceeded|tokenize", f"{case['dialect'] or 'base'}: tokenizing {case['sql'][:300]!r} for mutation exceeded the work bound")]
     unmutated = case["kind"] == "V" or (case["kind"] == "F" and not case.get("muts"))
-    fails, info = run_one(text, case["dialect"], case["other"], case["level"], case.get("count_work", False), all_targets=unmutated)
+    fails, info = run_one(text, case["dialect"], case["other"], case["level"], case.get("count_work", False), all_targets=unmutated and not case.get("own_only"))
     out = []
+    if res is not None and any(b.startswith("work-bound") for b, _ in fails):
+        _WORK_FAILS[0] += 1
     for b, det in fails:
         # STRICT (one hit is a violation): the work bound, and anything on UNMUTATED statements (grammar or fixture corpus).
         # Mutated text that a RAISE-level parse happens to accept is still garbage text: 'accepted|' buckets follow the
@@ -304,6 +334,10 @@ def check_case(case, res=None):
     return out
 
 
+def no_shrink(bucket: str) -> bool:
+    return "work-bound" in bucket
+
+
 def frequency_floor(bucket: str) -> int:
     """Garbage-text call sites need >=3 distinct inputs in one run; everything strict needs one."""
     return 3 if bucket.startswith(("garbage|", "accepted|")) else 1
@@ -321,13 +355,15 @@ def plan(tier):
 
 def sweep(part, res, only_bucket=None):
     """EXHAUSTIVE stream: every statement of the repository's fixture corpus, read as its own dialect at RAISE and IGNORE,
-    generated for every dialect (finite: |corpus| x 2 x |dialects|; work is not counted here, the random streams do that)."""
+    generated for every dialect at RAISE (finite: |corpus| x |dialects|), everything work-counted."""
     n = 0
     for i, (d, text) in enumerate(corpus()):
         if i % SWEEP_PARTS != part:
             continue
         for level in ("RAISE", "IGNORE"):
-            case = {"kind": "F", "dialect": d, "other": "", "level": level, "count_work": False, "sql": text, "muts": []}
+            # RAISE: generated for all dialects; IGNORE (same tree whenever RAISE accepts): own dialect only. Everything is work-counted:
+            # generators call back into the tokenizer/parser (DataType.build, format strings), so a hang can sit there too
+            case = {"kind": "F", "dialect": d, "other": "", "level": level, "count_work": True, "sql": text, "muts": [], "own_only": level == "IGNORE"}
             for b, det in check_case(case, res):
                 if only_bucket is None or b == only_bucket:
                     res.fail(b, case, det)
@@ -335,7 +371,36 @@ def sweep(part, res, only_bucket=None):
     res.extra["corpus_statements_swept"] = res.extra.get("corpus_statements_swept", 0) + n // 2
 
 
+IMPORT_LIMIT = 20_000_000
+
+
+def _preload(res, only_bucket):
+    """Dialect modules run the tokenizer and parser at import time (class bodies call maybe_parse): load them under the work
+    bound first, so that a hang there is a counted violation instead of a hang inside a generator or a dialect lookup."""
+    from sqlglot.dialects.dialect import Dialect
+
+    for d in sqlcore.dialect_names():
+        counter = _Counter(IMPORT_LIMIT)
+        try:
+            sys.setprofile(counter)
+            try:
+                Dialect.get_or_raise(d or None)
+            finally:
+                sys.setprofile(None)
+        except WorkExceeded:
+            b = "strict|work-bound-exceeded|import"
+            if only_bucket is None or only_bucket == b:
+                res.fail(b, {"text": "SELECT 1", "dialect": d, "other": "", "level": "RAISE", "strict": True}, f"loading dialect {d or 'base'} needs more than {IMPORT_LIMIT} Python calls")
+            res.case(core.h8(["import", d]), True, ["class:import"])
+            return False
+        except Exception:
+            pass
+    return True
+
+
 def run_shard(spec, seed, res, only_bucket=None):
+    if not _preload(res, only_bucket):
+        return None
     if spec.get("kind") == "sweep":
         sweep(spec["part"], res, only_bucket)
         return None
